@@ -49,6 +49,9 @@ CheckText(c) ==
     ELSE IF Len(D) # Len(T) THEN "rej:C08_Count"
     ELSE IF \E n \in DOMAIN T : D[n].addr # T[n].addr \/ ~MnAgrees(T[n].mn, D[n].mn) THEN "rej:C08_AddrMnemonic"
     ELSE IF ~ListOK(D) \/ Encode(D) # c.stream THEN "rej:C10_FieldSeparator"
+    \* a comma that is not a separator would show up as an extra operand field: the line's operand
+    \* text, split at the commas outside parentheses, says how many operands there are
+    ELSE IF \E n \in DOMAIN T : Len(D[n].ops) # Len(T[n].ops) THEN "rej:C10_CommaInsideField"
     ELSE IF \E n \in DOMAIN T :
               (\A k \in DOMAIN T[n].ops : NormOfText(T[n].ops[k]).ok) /\ Len(D[n].ops) # Len(T[n].ops)
          THEN "rej:C09_OperandCount"
